@@ -57,7 +57,7 @@ def cases(tier):
 
 
 def weight(case):
-    return (case['total'] + 1) * 9 if case['fam'] == 'CT' else 6
+    return (case['total'] + 1) * 9 if case['fam'] == 'CT' else 7
 
 
 def judge(res, r, prms, sub, monotone_map=None):
@@ -143,8 +143,10 @@ def run_case(case):
         res['sample'] = {'fam': 'CT', 'total': total, 'n_ceilos': k, 'runs': res['n']}
     else:
         C, T = case['shape']
-        for offset in (0.0, 5.0):
-            dts = scenes.stamps(T)
+        # stamp layouts: coincident stamps, offset stamps, and POSITIVE stamps with numeric-looking names chosen such that the plain
+        # concatenation name + str(dt) collides ('1'+'11.0' == '11'+'1.0'): a (ceilo, dt) pair is a pair, not a string
+        for offset, names, dts_override in ((0.0, ('a', 'b'), None), (5.0, ('a', 'b'), None), (0.0, ('1', '11'), [11.0, 1.0, 21.0][:T])):
+            dts = dts_override or scenes.stamps(T)
             rows = []
             kk = 0
             for c in range(C):
@@ -153,10 +155,18 @@ def run_case(case):
                     if e is None:
                         continue
                     for (h, typ) in e:
-                        rows.append([('a', 'b')[c], dts[t] - (offset if c == 1 else 0.0), h, typ])
-            for prms in ({'MAX_HITS_OKTA0': 0, 'MAX_HOLES_OKTA8': 0}, {'MAX_HITS_OKTA0': 1, 'MAX_HOLES_OKTA8': 0},
+                        dt = dts[t] - (offset if c == 1 else 0.0)
+                        if dts_override and c == 1:
+                            dt = {11.0: 1.0, 1.0: 11.0, 21.0: 2.0}[dts[t]]      # '11' gets 1.0 where '1' has 11.0, and vice versa
+                        rows.append([names[c], dt, h, typ])
+            layout = 0 if (offset == 0.0 and not dts_override) else (1 if not dts_override else 2)
+            for pi, prms in enumerate(({'MAX_HITS_OKTA0': 0, 'MAX_HOLES_OKTA8': 0}, {'MAX_HITS_OKTA0': 1, 'MAX_HOLES_OKTA8': 0},
                          # the base-height exclusion list must not change any count
-                         {'MAX_HITS_OKTA0': 0, 'MAX_HOLES_OKTA8': 1, 'EXCLUDE_FOR_BASE_HEIGHT_CALC': ['b']}):
+                         {'MAX_HITS_OKTA0': 0, 'MAX_HOLES_OKTA8': 1, 'EXCLUDE_FOR_BASE_HEIGHT_CALC': ['b']},
+                         # an MSA between the two decks: second hits above it are dropped (index gaps), first hits become non-detections
+                         {'MAX_HITS_OKTA0': 0, 'MAX_HOLES_OKTA8': 0, 'MSA': 2000.0, 'MSA_HIT_BUFFER': 0.0})):
+                if (layout == 1 and pi >= 2) or (layout == 2 and pi >= 1):
+                    continue        # the exclusion / MSA runs only on the coincident layout, the colliding-name layout only once
                 r = pipeline.run(rows, prms, msgs=False)
                 res['n'] += 1
                 if not r.ok:
